@@ -1,5 +1,5 @@
 # replay of a bounded stand-in violation (C09/C10): re-run native/c09_engine.py
 import sys
-print('gaussian [Del q0 then measure q1, feed q2]: raised ParameterError: q1: trying to use a nonexistent measurement result (e.g., before it has been measured). (after [])')
+print("C10 gaussian homodyne-angle {'optimize': True}: the same program re-run with a = -0.52, b = 0.44 gives [0.0, 1.0, 0.0, 1.0, 0.1903, 0.7992, -0.0589, 1.2859], the substituted program [0.0, 1.0, 0.0, 1.0, 0.0181, 1.3326, 0.1984, 0.7525]")
 print('REPLAY-VIOLATION')
 sys.exit(1)
